@@ -70,6 +70,13 @@ typedef struct {
   DWORD dwProcessId, dwThreadId;
 } PROCESS_INFORMATION, *LPPROCESS_INFORMATION;
 
+// Microsoft CRT spellings a change to the Windows sources may use
+#define _wcsdup wcsdup
+#define _strdup strdup
+#define _stricmp strcasecmp
+#define _wcsicmp wcscasecmp
+#include <strings.h>
+
 void SetLastError(DWORD e);
 DWORD GetLastError(void);
 BOOL SetHandleInformation(HANDLE h, DWORD mask, DWORD flags);
